@@ -172,3 +172,109 @@ def cfg_of(body):
     if body._cfg is None:
         body._cfg = Cfg(body)
     return body._cfg
+
+
+# ---------------------------------------------------------------------------------------------
+# liveness of locals (used to keep dead temporaries out of loop-head state keys)
+
+def _place_uses(place, out):
+    out.add(place["l"])
+    for e in place["p"]:
+        if e["k"] == "index":
+            out.add(e["local"])
+
+
+def _op_uses(op, out):
+    if op is not None and op["k"] in ("copy", "move"):
+        _place_uses(op["place"], out)
+
+
+def _rv_uses(rv, out, borrowed):
+    k = rv["k"]
+    if k in ("use", "cast", "repeat"):
+        _op_uses(rv.get("op"), out)
+    elif k == "binop":
+        _op_uses(rv["a"], out)
+        _op_uses(rv["b"], out)
+    elif k == "unop":
+        _op_uses(rv["a"], out)
+    elif k == "aggregate":
+        for o in rv["ops"]:
+            _op_uses(o, out)
+    elif k in ("ref", "rawptr"):
+        _place_uses(rv["place"], out)
+        if not any(e["k"] == "deref" for e in rv["place"]["p"]):
+            borrowed.add(rv["place"]["l"])
+    elif k == "discr":
+        _place_uses(rv["place"], out)
+
+
+def liveness(body):
+    """block index -> set of locals live at block entry.  Locals whose address is taken are
+    conservatively live everywhere (a reference may be read later)."""
+    if getattr(body, "_live", None) is not None:
+        return body._live
+    cfg = cfg_of(body)
+    n = cfg.n
+    use = [set() for _ in range(n)]
+    deff = [set() for _ in range(n)]
+    borrowed = set()
+    for bi, b in enumerate(body.blocks):
+        u, d = use[bi], deff[bi]
+        for s in b["stmts"]:
+            if s["k"] != "assign":
+                if s["k"] == "setdiscr":
+                    tmp = set()
+                    _place_uses(s["place"], tmp)
+                    u |= (tmp - d)
+                continue
+            tmp = set()
+            _rv_uses(s["rv"], tmp, borrowed)
+            pl = s["place"]
+            if pl["p"]:
+                _place_uses(pl, tmp)      # partial write: the rest of the local stays
+            u |= (tmp - d)
+            if not pl["p"]:
+                d.add(pl["l"])
+        t = b["term"]
+        tmp = set()
+        k = t["k"]
+        if k == "switch":
+            _op_uses(t["discr"], tmp)
+        elif k in ("call", "tailcall"):
+            _op_uses(t["func"], tmp)
+            for a in t["args"]:
+                _op_uses(a, tmp)
+            u |= (tmp - d)
+            tmp = set()
+            dst = t.get("dest")
+            if dst is not None:
+                if dst["p"]:
+                    _place_uses(dst, tmp)
+                else:
+                    d.add(dst["l"])
+        elif k == "drop":
+            _place_uses(t["place"], tmp)
+        elif k == "assert":
+            _op_uses(t["cond"], tmp)
+        elif k == "return":
+            tmp.add(0)
+        u |= (tmp - d)
+    live_in = [set() for _ in range(n)]
+    changed = True
+    while changed:
+        changed = False
+        for bi in range(n - 1, -1, -1):
+            out = set()
+            for (tgt, _l) in cfg.succ[bi]:
+                out |= live_in[tgt]
+            new = use[bi] | (out - deff[bi])
+            if new != live_in[bi]:
+                live_in[bi] = new
+                changed = True
+    res = {bi: (live_in[bi] | borrowed) for bi in range(n)}
+    try:
+        body._live = res
+    except AttributeError:
+        pass
+    return res
